@@ -159,7 +159,7 @@ def run(ctx):
     ctx.coverage["distinct_nontrivial"] = len({json.dumps([c["u"], c["root"]]) for c in cases if c["ref"]["st"] == "ok"
                                                and len(c["ref"]["m"]) > 2})
     ctx.coverage["rule"] = ("%d generated universes (2-8 projects, 1-5 versions each, majors v0-v3 with @vN path suffixes, "
-                            "prereleases, diamonds, forced cycles, 2%% requirements on untagged versions) x 3 root requirement "
+                            "prereleases, two-digit components, diamonds, forced cycles, a root requirement on the root's own empty path now and then, 2%% requirements on untagged versions) x 3 root requirement "
                             "sets x {cold cache, same resolver again, new resolver on the warm disk cache, cache shared with "
                             "other roots, shuffled requirement declaration order + renamed root requirements}; "
                             "non-trivial = resolves without error to more than one project; requirements on pseudo-versions "
